@@ -168,8 +168,18 @@ def _coefs(p):
 
 
 def run_cli(case):
+    res = None
+    for attempt in range(4):
+        res = _run_cli(case, attempt)
+        # a fold that fails to train makes the saved models unusable for the feed-back test: draw other data
+        if not res["counters"].get("load_refused_untrained_model"):
+            break
+    return res
+
+
+def _run_cli(case, attempt):
     res = Result(case, key=f"cli/{case['group']}")
-    rng = core.seed_seq(case["seed"], "C08", "cli", case["group"])
+    rng = core.seed_seq(case["seed"], "C08", "cli", case["group"], attempt)
     with core.scratch("c08c") as d:
         db = prot.protein_db(rng, n_prot=90, anagrams=12)
         tab = prot.psm_table_for_db(rng, db, n_spectra=int(rng.integers(600, 800)), styles=("plain", "mod_sq"), sep=3.0)
